@@ -6,7 +6,7 @@ from vmon.checks.c04 import build_case
 from vmon.gen import patterns, planted, replcase
 from vmon.oracle import geometry as G
 
-from vmon.oracle.util import clone
+from vmon.oracle.util import elements_of, clone
 
 PROPERTY = "C05"
 RULE = ("Planted structures (all cell classes incl. every tilt-sign combination, copies straddling 0-3 faces, all pose "
@@ -136,7 +136,7 @@ def judge_placements(ctx, st, case, pat, rep, S, P, R, obs, atol, label=""):
 
 
 def result_multiset(out, n_in):
-    els = list(out.elements)
+    els = elements_of(out)
     return [(els[i], np.asarray(out.positions[i], float)) for i in range(len(out)) if float(out.charges[i]) < 0]
 
 
